@@ -754,20 +754,43 @@ func run(sc *scenario, out *bufio.Writer) {
 	kafka.VerifStart()
 	var tmu sync.Mutex
 	born := map[string]time.Time{}
+	bornLower := map[string]time.Time{}
+	var sectionTime time.Time
+	earlyTimers := 0
 	var dumpMu sync.Mutex
 	var dump func(why string) // set below, once the calls exist
 	completed := map[string]bool{}
 	kafka.VerifSetSink(func(e kafka.VerifEvent) {
+		now := time.Now()
 		switch e.Kind {
+		case "W.Batch", "W.NewPW", "PW.Add":
+			// events of the batchMessages critical section: emitted by the goroutine that holds w.mutex, so the time
+			// taken here (in that goroutine, before it goes on) is EARLIER than the creation of any batch it opens next
+			tmu.Lock()
+			sectionTime = now
+			tmu.Unlock()
+		case "PW.Detach":
+			if e.Args[2] == "full" || e.Args[2] == "nofit" {
+				tmu.Lock()
+				sectionTime = now
+				tmu.Unlock()
+			}
 		case "PW.NewBatch":
 			tmu.Lock()
-			born[e.Args[1]] = time.Now()
+			born[e.Args[1]] = now
+			bornLower[e.Args[1]] = sectionTime
+			sectionTime = now
 			delete(completed, e.Args[1])
 			tmu.Unlock()
 		case "B.TimerFire":
 			tmu.Lock()
 			if t0, ok := born[e.Args[1]]; ok {
-				timerObs.add(time.Since(t0), sc.timeout)
+				timerObs.add(now.Sub(t0), sc.timeout)
+			}
+			// sound check: even measured from a time before the timer was armed to a time after it fired, less than
+			// BatchTimeout (minus tolerance) has passed: the timer fired early, whatever the scheduler did
+			if t0, ok := bornLower[e.Args[1]]; ok && !t0.IsZero() && len(sc.sinkDelay) == 0 && now.Sub(t0) < sc.timeout-time.Millisecond {
+				earlyTimers++
 			}
 			tmu.Unlock()
 		case "B.Complete":
@@ -824,7 +847,7 @@ func run(sc *scenario, out *bufio.Writer) {
 	var wg sync.WaitGroup
 	// ---- render (also used for an emergency dump right before a crash)
 	dumped := false
-	render := func(evs []kafka.VerifEvent, unsent int, stuck bool) {
+	render := func(evs []kafka.VerifEvent, unsent int, stuck bool, stats string) {
 		rmu.Lock()
 		defer rmu.Unlock()
 		f.mu.Lock()
@@ -900,7 +923,10 @@ func run(sc *scenario, out *bufio.Writer) {
 		}
 		sb.WriteString(strings.Join(cbs, ";"))
 		cbmu.Unlock()
-		fmt.Fprintf(&sb, " | unsent %d | multi %d | stuck %d", unsent, f.multi, b2i(stuck))
+		tmu.Lock()
+		early := earlyTimers
+		tmu.Unlock()
+		fmt.Fprintf(&sb, " | unsent %d | multi %d | stuck %d | stats %s | early %d", unsent, f.multi, b2i(stuck), stats, early)
 		out.WriteString(sb.String())
 		out.WriteString("\n")
 		out.Flush()
@@ -908,7 +934,7 @@ func run(sc *scenario, out *bufio.Writer) {
 	dumpMu.Lock()
 	dump = func(why string) {
 		fmt.Fprintf(os.Stderr, "writer driver: %s in scenario %s: dumping the trace before the library panics\n", why, sc.name)
-		render(kafka.VerifSnapshot(), 0, false)
+		render(kafka.VerifSnapshot(), 0, false, "-")
 	}
 	dumpMu.Unlock()
 	if sc.special == "closewin" {
@@ -1073,7 +1099,14 @@ func run(sc *scenario, out *bufio.Writer) {
 	if callersStuck || unsent > 0 || stuck {
 		failedScenarios++
 	}
-	render(evs, unsent, stuck)
+	// the Writer's own accounting (WriterStats; counters are reset by the read): produce attempts, messages and bytes
+	// handed to them, failed attempts, retries, largest batch
+	stats := "-"
+	if !stuck {
+		st := w.Stats()
+		stats = fmt.Sprintf("w=%d,m=%d,b=%d,e=%d,r=%d,maxn=%d,maxb=%d", st.Writes, st.Messages, st.Bytes, st.Errors, st.Retries, st.BatchSize.Max, st.BatchBytes.Max)
+	}
+	render(evs, unsent, stuck, stats)
 }
 
 func (sc *scenario) jitterMaxUs() int {
